@@ -22,16 +22,28 @@ def setup():
 
 
 # ---- helpers -------------------------------------------------------------------
-def n_snv(k):
+# Embedding of the model's small haplotypes into loci with many SNVs: EMB = (constant columns in front, behind).
+# The embedding is injective and leaves every equality between haplotypes unchanged, so every summary functional of
+# the model applies verbatim to the wide trace ("all traces (chains x steps x ploidy x SNVs)").
+EMB = (0, 0)
+
+
+def n_core(k):
     return 2 if k <= 4 else 3
 
 
+def n_snv(k):
+    return n_core(k) + EMB[0] + EMB[1]
+
+
 def hap_row(h, k):
-    n = n_snv(k)
-    return [(h >> (n - 1 - j)) & 1 for j in range(n)]
+    n = n_core(k)
+    return [0] * EMB[0] + [(h >> (n - 1 - j)) & 1 for j in range(n)] + [1] * EMB[1]
 
 
 def row_id(row):
+    row = list(row)
+    row = row[EMB[0]: len(row) - EMB[1]]
     v = 0
     for x in row:
         v = v * 2 + int(x)
@@ -70,11 +82,12 @@ class Cmp:
         self.mode = mode
         self.bad = []
         self.n = 0
+        self.feature_suffix = None
 
     def check(self, site, ok, impl, model, feature=None):
         self.n += 1
         if not ok:
-            self.bad.append({"site": site, "feature": feature, "impl": impl, "model": model})
+            self.bad.append({"site": site, "feature": feature, "impl": impl, "model": model, "embedding": self.feature_suffix})
 
 
 def bag_of_rows(g):
@@ -178,6 +191,11 @@ def run_state(st, mode, c):
         g_in = g.copy()
         t = AC.GenotypeMultiTrace(g, np.zeros((C, S)))
         c.check("GenotypeMultiTrace.__post_init__", np.array_equal(g, g_in), "input mutated", "input untouched", "aliasing")
+        # history: summaries asked of the un-burnt trace first must not leak into the burnt one (every second state)
+        if (S + b + sum(sum(x[0]) for ch in tr for x in ch)) % 2 == 0:
+            _ = t.posterior()
+            _ = t.posterior().mode()
+            _ = t.split()
         tb = t.burn(b)
         s0 = sm[0]
         n = s0["n"]
@@ -289,6 +307,18 @@ def run(task):
             try:
                 with np.errstate(all="ignore"):
                     run_state(st, task.get("mode", "jit"), c)
+                    # every wide_every-th haplotype-trace state is also replayed embedded in a locus of 60+ SNVs
+                    if st["kind"] == "hap" and task.get("wide_every") and out["n"] % task["wide_every"] == 0:
+                        global EMB
+                        for emb in ((60, 0), (0, 57), (33, 30)):
+                            EMB = emb
+                            try:
+                                c.feature_suffix = "wide%d+%d" % emb
+                                run_state(st, task.get("mode", "jit"), c)
+                            finally:
+                                EMB = (0, 0)
+                                c.feature_suffix = None
+                        out["wide"] = out.get("wide", 0) + 1
             except Exception as e:  # an exception inside a summary method is a finding, not a crash
                 import traceback
 
